@@ -136,6 +136,7 @@ def candidates(s, kind, unit):
             out.append((foreign[0],))
         out.append(('??',))
         out.append(('',))
+        out += [(t,) for t in MALFORMED]
         return out
     if kind == 'deal_hole':
         out = [(), (0,), (1,), (2,), (-3,), (8,)]
@@ -151,6 +152,7 @@ def candidates(s, kind, unit):
             out.append((1, i))
         if foreign:
             out.append((tuple(foreign),))
+        out += [(t,) for t in MALFORMED]
         return out
     if kind == 'deal_board':
         out = [(), (0,), (1,), (3,), (4,), (-3,)]
@@ -162,6 +164,7 @@ def candidates(s, kind, unit):
             out.append((tuple(deck[:2]) + tuple(deck[:1]),))
         if foreign:
             out.append((tuple(foreign),))
+        out += [(t,) for t in MALFORMED]
         return out
     if kind == 'stand_pat_or_discard':
         out = [()]
@@ -181,6 +184,7 @@ def candidates(s, kind, unit):
         if others:
             out.append((tuple(others[:1]),))
         out.append(('??',))
+        out += [(t,) for t in MALFORMED]
         return out
     if kind == 'complete_bet_or_raise_to':
         return _amounts(s, unit)
@@ -204,6 +208,7 @@ def candidates(s, kind, unit):
                 if deck:
                     out.append((hole + tuple(deck[:1]), i))
                     out.append(((deck[0],) + hole[1:], i))
+        out += [(t,) for t in MALFORMED[:3]]
         j = s.showdown_index
         if j is not None and s.hole_cards[j]:
             hole = tuple(s.hole_cards[j])
@@ -214,6 +219,11 @@ def candidates(s, kind, unit):
 
 
 ALLOWED_REFUSALS = (ValueError, UserWarning)
+
+# card texts that are not cards: blanks in odd places, a dangling character,
+# letters that are no rank/suit (all refused with ValueError, never accepted,
+# never another exception)
+MALFORMED = ('A s', 'AsK sQs', 'A sKs', 'A', 'Xx', 'AsK', '1s', 'sA')
 
 # kind -> per-player attributes that may change, and only at the named index
 _FOOTPRINT = {
